@@ -8,7 +8,7 @@ import ast
 import re
 
 from ..report import Inconclusive
-from ..py.guards import AEval, Kind, KINDS, always_raises
+from ..py.guards import AEval, Kind, KINDS, Reach, always_raises
 from ..py.index import u, walk_shallow
 from ..py.templates import Lang, FORMAT_SHAPE, READ_FORM, included, intersect_witness
 from ..py import norm
@@ -252,7 +252,8 @@ def find_slots(ix):
     rebound = [n for n in ast.walk(g.node) if isinstance(n, (ast.Assign, ast.AugAssign)) and any(isinstance(x, ast.Name) and x.id == g.params[0] and isinstance(x.ctx, ast.Store) for x in ast.walk(n))]
     for l in walk_shallow(g.node):
         if isinstance(l, ast.For) and u(l.iter) == g.params[0] and not rebound:
-            slots.append(Slot("list element", g, l, u(l.target), None, ("elements",), False))
+            cols = {u(c.func.value) for c in ast.walk(l) if isinstance(c, ast.Call) and isinstance(c.func, ast.Attribute) and c.func.attr == "append" and isinstance(c.func.value, ast.Name)}
+            slots.append(Slot("list element", g, l, u(l.target), None, tuple(sorted(cols)) or ("elements",), False))
     if rebound:
         LIST_REBOUND = (g, rebound[0])
     return slots
@@ -626,11 +627,12 @@ def c15_4(rep, ix, M):
     sec = [n for n in fn.body if isinstance(n, ast.If) and " ".join(u(resolve(fn, n.test)).split()) in ("self.programtype['name'] == 'tdm'", "self._type['name'] == 'tdm'")]
     if len(sec) != 1:
         raise Inconclusive("serialize: tdm variable section not recognised")
-    loops = [n for n in sec[0].body if isinstance(n, ast.For) and u(n.iter) in ("self._var.items()", "self.variables.items()")]
+    loops = [n for n in ast.walk(sec[0]) if isinstance(n, ast.For) and u(n.iter) in ("self._var.items()", "self.variables.items()")]
     if len(loops) != 1:
         raise Inconclusive("serialize: loop over the variables not recognised")
     lp = loops[0]
     k, v = u(lp.target.elts[0]), u(lp.target.elts[1])
+    tdm_dispatch(rep, R, ix, f, lp, v)
     arms, chain = isinstance_chain(lp.body, v)
     if arms is None:
         raise Inconclusive("serialize: dispatch over the variable value not recognised")
@@ -688,6 +690,46 @@ def c15_4(rep, ix, M):
                         shown = "".join(x if t == "lit" else "<%s>" % x for t, x in tail)
                         rep.check(w is None, R, ix.site(f, rows[0]), "%s elements of a tdm array render as `%s`, included in %s" % (ek, shown, form), "e.g. %r" % w, key="tdm|elem|" + ek)
             rep.check(okr or True, R, ix.site(f, rows[0]) if rows else ix.site(f), "each row starts on a new line with four spaces and separates elements by ', '", key="tdm|rows")
+
+
+def tdm_dispatch(rep, R, ix, f, lp, v):
+    """which kind of declaration is written for which kind of variable value, decided by reachability of the writing statements on a
+    finite model of values: Python scalars, a 2x3 array and a 1x1 array (an array is an array whatever its size)"""
+    from ..py.guards import single_assignments
+    fake = ast.FunctionDef(name="_", args=ast.arguments(posonlyargs=[], args=[], kwonlyargs=[], kw_defaults=[], defaults=[]), body=lp.body, decorator_list=[])
+    alias = single_assignments(fake)
+    writes = []
+    for s_ in ast.walk(fake):
+        if isinstance(s_, (ast.Expr, ast.AugAssign)):
+            for c in ast.walk(s_):
+                if isinstance(c, ast.Call) and isinstance(c.func, ast.Attribute) and c.func.attr in ("append", "extend") and isinstance(c.func.value, ast.Name) and c.args:
+                    t = norm.canon_text(c.args[0]) or " ".join(u(c.args[0]).split())
+                    writes.append((s_, "array" if " array " in t else ("scalar" if " = " in t else None)))
+    writes = [(s_, w) for s_, w in writes if w]
+    if not any(w == "array" for _, w in writes) or not any(w == "scalar" for _, w in writes):
+        return                                  # forms not recognisable here: left to the template checks below
+    models = [(n_, XK[n_].with_attrs(size=1, ndim=0, shape=())) for n_ in ("PyStr", "PyFloat", "PyInt", "PyComplex", "PyBool")]
+    models += [("a 2x3 array", XK["NdArray"].with_attrs(size=6, ndim=2, shape=(2, 3))), ("a 1x1 array", XK["NdArray"].with_attrs(size=1, ndim=2, shape=(1, 1)))]
+    for name, model in models:
+        def atom(node, model=model, depth=[0]):
+            if isinstance(node, ast.Name) and node.id == v:
+                return model
+            if isinstance(node, ast.Call) and u(node.func) in ("np.asarray", "np.array", "np.asanyarray", "numpy.asarray") and len(node.args) == 1 and not node.keywords:
+                return AEval(atom).ev(node.args[0])          # the array form of the value has the attributes of the model
+            if isinstance(node, ast.Call) and u(node.func) in ("np.ndim", "np.size", "np.shape") and len(node.args) == 1:
+                x = AEval(atom).ev(node.args[0])
+                return x.extra.get(u(node.func)[3:]) if isinstance(x, Kind) else AEval.NO
+            if isinstance(node, ast.Name) and node.id in alias and node.id != v and depth[0] < 4:
+                depth[0] += 1
+                try:
+                    return AEval(atom).ev(alias[node.id])
+                finally:
+                    depth[0] -= 1
+            return AEval.NO
+        want = "array" if "array" in name else "scalar"
+        reach = {w for s_, w in writes if Reach(fake, s_, aliases=False).may_reach(atom)}
+        rep.check(reach == {want}, R, ix.site(f, lp), "a tdm variable holding %s is written as %s declaration" % (name if "array" in name else "a %s scalar" % name, "an array" if want == "array" else "a scalar"),
+                  "the statements reachable for it write: %s" % sorted(reach), key="tdm|dispatch|" + name)
 
 
 def local_callables(stmts, binding):
